@@ -56,6 +56,7 @@ def run_property(pid, tier, seed, replay=None):
         timeout = getattr(mod, "CASE_TIMEOUT", 600)
         import lib as _lib
         _lib.ENV["IMPLDRV_CASE_SECS"] = str(getattr(mod, "CASE_SECS", 5))
+        _lib.ENV["IMPLDRV_STACK_KB"] = str(getattr(mod, "STACK_KB", 2048))
         per_shard = getattr(mod, "PER_SHARD", 100)
         impl_out = run_driver(IMPLDRV, cases, timeout=timeout, per_shard=per_shard)
         # the list-based model can be too slow on a pathological input; a model-side timeout says nothing about the code:
